@@ -24,10 +24,11 @@ Proof.
   unfold wbxml2xml_model, conv_run. destruct doc as [|b0 r0]; [discriminate|].
   unfold w2x_tree_from_doc, wbxml_tree_from_wbxml.
   pose proof (tree_from_wbxml_total tbl (wo_lang o) (wo_charset o) MAX_EMBEDDED_DEPTH (b0 :: r0)) as Ht.
-  destruct (tree_from_wbxml tbl (wo_lang o) (wo_charset o) MAX_EMBEDDED_DEPTH (b0 :: r0)) as [t|[|e]|]; [| | |congruence].
+  destruct (tree_from_wbxml tbl (wo_lang o) (wo_charset o) MAX_EMBEDDED_DEPTH (b0 :: r0)) as [t|[| |e]|]; [| | | |congruence].
   - unfold w2x_encode. destruct (to_xroots tbl t) as [[xl roots]|]; [|discriminate].
     destruct (EncXml.enc_xml _ _ _ _ _) as [out|e]; cbn [r_status]; [discriminate|].
     intros H. injection H as H. exact (xerr_code_not_fuel e H).
+  - discriminate.
   - discriminate.
   - cbn [r_status]. intros H. injection H as H. exact (perr_code_not_fuel e H).
 Qed.
@@ -181,7 +182,7 @@ Theorem model_size tbl o doc :
   (N.to_nat (r_len (wbxml2xml_model tbl o doc)) <= size_bound tbl (wo_indent o) (length doc))%nat.
 Proof.
   unfold wbxml2xml_model, conv_run. destruct doc as [|b0 r0]; [cbn [r_len]; lia|]. unfold w2x_tree_from_doc.
-  destruct (wbxml_tree_from_wbxml tbl (wo_lang o) (wo_charset o) (b0 :: r0)) as [t|[|e]|] eqn:Et; try (cbn [r_len]; lia).
+  destruct (wbxml_tree_from_wbxml tbl (wo_lang o) (wo_charset o) (b0 :: r0)) as [t|[| |e]|] eqn:Et; try (cbn [r_len]; lia).
   destruct (w2x_encode tbl o t) as [out|e] eqn:Ee; [|cbn [r_len]; lia].
   cbn [r_len]. rewrite Nat2N.id. exact (conv_size tbl o (b0 :: r0) t out Et Ee).
 Qed.
